@@ -158,6 +158,14 @@ def depth_case(v, shape, N, lazy):
                                    required=part != "data"),
                     "b": pa.Column(int if part != "data" else None, Check.isin([1, 2, 3]) if part != "schema" else None, required=part != "data")}
             return pa.DataFrameSchema(cols, strict=strict if part != "data" else False, unique=["a", "b"] if part != "schema" else None)
+    elif shape == "frame_dup_labels":
+        # duplicate column labels with unique_column_names=True: a label-level (schema-scope) constraint
+        obj = v.frame([("a", "float"), ("a", "float"), ("b", "int")], N, labels="l", distinct_labels=True)
+        ucn = v.choice("ucn", [True, False])
+
+        def mk(part):  # the duplicated label is not declared (selecting a duplicated label yields a frame, not a column)
+            cols = {"b": pa.Column(int if part != "data" else None, Check.ge(lo) if part != "schema" else None, required=part != "data")}
+            return pa.DataFrameSchema(cols, unique_column_names=ucn if part != "data" else False)
     full, sp, dp = mk("full"), mk("schema"), mk("data")
 
     def acc(schema, depth):
@@ -315,7 +323,7 @@ def templates(tier, seed):
     N = 2
     for shape in ("series", "frame", "column", "model"):
         ts.append(Template(f"DIS/{shape}/N={N}", disabled_case, (shape, N)))
-    for shape in ("series", "frame", "frame_missing", "frame_extra", "frame_wrongtype"):
+    for shape in ("series", "frame", "frame_missing", "frame_extra", "frame_wrongtype", "frame_dup_labels"):
         for lazy in (False, True):
             for n in ((N,) if tier == "quick" else (1, 2, 3)):
                 ts.append(Template(f"DEPTH/{shape}/lazy={int(lazy)}/N={n}", depth_case, (shape, n, lazy)))
